@@ -31,7 +31,8 @@ MANIFEST = {
     "category": "exploration",
     "technique": "model-based property testing of multi-file opening: generated file sets x directory shapes x opening modes against a concatenation model with row ids",
     "text": "Generated sets of compatible files in flat/hive/drill shapes opened through every multi-file entry point must read as "
-            "the concatenation of the files with correctly inferred partition columns; mismatching schemas must be rejected under verify.",
+            "the concatenation of the files with correctly inferred partition columns; mismatching schemas must be rejected under verify; "
+            "the footer length of a later file is swept byte by byte around the speculative read size derived from the first file.",
     "note": "Trusted: the expected-table model of C01 per file; os-level directory construction.",
 }
 BUDGET = {"quick": {"shards": 8, "examples": 250, "wall": 110},
